@@ -374,13 +374,15 @@ fn check_c13_case(case: &PollCase, env: &mut Env) -> Verdict {
     let mut poller = dv::Poller::default();
     // model state: instant of the last good answer
     let construct_reads = vc.take_log();
-    let mut last_good: i128 = match construct_reads.iter().find(|r| r.clock_id == CLK_MONO) {
-        Some(r) => r.value_ns - 5_000_000_000,
-        None => {
-            v.fail("constructing the poller did not read the monotonic clock".into());
-            return v;
-        }
-    };
+    // (an implementation that does not look at the clock when it is constructed is judged from the
+    // instant of construction all the same)
+    // The model keeps the instant of the last good answer as an interval [lo, hi]: both ends are the
+    // monotonic reading the implementation took right after the answer when there is one (the code
+    // under test does that); an implementation that takes no such reading is judged against the
+    // whole span in which "the last good answer" can be placed (request issued .. end of iteration),
+    // and a verdict is only demanded where it does not depend on that choice.
+    let t_construct = construct_reads.iter().find(|r| r.clock_id == CLK_MONO).map(|r| r.value_ns).unwrap_or(vc.mono());
+    let mut last_good: (i128, i128) = (t_construct - 5_000_000_000, t_construct - 5_000_000_000);
     let mut ever_answered = false;
     // consecutive polls without a restart run as ONE call of the real loop
     let phc_now = std::rc::Rc::new(RefCell::new(case.phc_file.clone()));
@@ -392,7 +394,7 @@ fn check_c13_case(case: &PollCase, env: &mut Env) -> Verdict {
             v.label("daemon-restart");
             poller = dv::Poller::default();
             let rs = vc.take_log();
-            restarts_at.push((i, rs.iter().find(|r| r.clock_id == CLK_MONO).map(|r| r.value_ns - 5_000_000_000).unwrap_or(0)));
+            restarts_at.push((i, rs.iter().find(|r| r.clock_id == CLK_MONO).map(|r| r.value_ns).unwrap_or(vc.mono()) - 5_000_000_000));
         }
         let mut j = i + 1;
         while j < case.steps.len() && !case.steps[j].restart {
@@ -442,7 +444,7 @@ fn check_c13_case(case: &PollCase, env: &mut Env) -> Verdict {
     for (i, obs, phc_now) in all_obs {
         let st = &case.steps[i];
         if let Some((_, lg)) = restarts_at.iter().find(|r| r.0 == i) {
-            last_good = *lg;
+            last_good = (*lg, *lg);
             ever_answered = false;
         }
         if case.steps[..=i].iter().rev().take_while(|s| !s.restart).count() > 0 && st.phc_change.is_some() {
@@ -459,16 +461,30 @@ fn check_c13_case(case: &PollCase, env: &mut Env) -> Verdict {
         };
         // reads after the query, in order
         let after: Vec<&ClockRead> = obs.reads.iter().skip(qpos).filter(|r| r.clock_id == CLK_MONO).collect();
+        let (_, t_query, t_reply) = obs.query.unwrap();
+        let iter_end = obs.reads.iter().map(|r| r.mono_ns).max().unwrap_or(t_reply).max(t_reply);
+        // class demanded at a decision taken in [d_lo, d_hi]: Some(true) grace, Some(false) beyond, None either
+        let demanded = |d_lo: i128, d_hi: i128, lg: (i128, i128)| -> Option<bool> {
+            if d_hi - lg.0 < 5_000_000_000 {
+                Some(true)
+            } else if d_lo - lg.1 >= 5_000_000_000 {
+                Some(false)
+            } else {
+                None
+            }
+        };
         let good = matches!(st.answer, Answer::Tracking(_));
         let expected: String;
         match &st.answer {
             Answer::Tracking(r) => {
                 // the Instant read that follows a good answer becomes the start of the grace period
-                let Some(tg) = after.first() else {
-                    v.fail(format!("poll {}: no monotonic read after a good answer", i));
-                    break;
+                last_good = match after.first() {
+                    Some(tg) => (tg.value_ns, tg.value_ns),
+                    None => {
+                        v.label("no-clock-read-after-a-good-answer");
+                        (t_query, iter_end)
+                    }
                 };
-                last_good = tg.value_ns;
                 ever_answered = true;
                 let matches_phc = case.phc_refid == Some(r.ref_id);
                 if case.phc_refid.is_some() && !matches_phc {
@@ -501,17 +517,26 @@ fn check_c13_case(case: &PollCase, env: &mut Env) -> Verdict {
                             v.label("phc-read-failure");
                             v.nontrivial = true;
                             // the report is not used as a measurement; grace class from the clock reads
-                            let Some(tc) = after.get(1) else {
-                                v.fail(format!("poll {}: PHC read failed but the grace period was not consulted (message {:?})", i, msg));
-                                break;
+                            let (d_lo, d_hi) = match after.get(1) {
+                                Some(tc) => (tc.value_ns, tc.value_ns),
+                                None => (t_reply, iter_end),
                             };
-                            let within = tc.value_ns - last_good < 5_000_000_000;
-                            let want = if within { Message::PhcErrorBoundRetrievalFailedGracePeriod } else { Message::PhcErrorBoundRetrievalFailed };
-                            if !within {
-                                v.label("phc-failure-beyond-grace");
-                            }
-                            if *msg != want {
-                                v.fail(format!("poll {}: PHC error bound unreadable {} ns after the last good answer: expected {:?}, got {:?}", i, tc.value_ns - last_good, want, msg));
+                            match demanded(d_lo, d_hi, last_good) {
+                                Some(within) => {
+                                    let want = if within { Message::PhcErrorBoundRetrievalFailedGracePeriod } else { Message::PhcErrorBoundRetrievalFailed };
+                                    if !within {
+                                        v.label("phc-failure-beyond-grace");
+                                    }
+                                    if *msg != want {
+                                        v.fail(format!("poll {}: PHC error bound unreadable {} ns after the last good answer: expected {:?}, got {:?}", i, d_lo - last_good.1, want, msg));
+                                    }
+                                }
+                                None => {
+                                    v.label("grace-class-depends-on-unobserved-instant");
+                                    if !matches!(msg, Message::PhcErrorBoundRetrievalFailedGracePeriod | Message::PhcErrorBoundRetrievalFailed) {
+                                        v.fail(format!("poll {}: PHC error bound unreadable: expected a PHC-failure message, got {:?}", i, msg));
+                                    }
+                                }
                             }
                         }
                     }
@@ -531,41 +556,50 @@ fn check_c13_case(case: &PollCase, env: &mut Env) -> Verdict {
             }
             _ => {
                 // no usable answer: grace class from the Instant read of is_within_grace_period
-                let Some(tc) = after.first() else {
-                    v.fail(format!("poll {}: no answer, but the grace period was not consulted (message {:?})", i, msg));
-                    break;
+                let (d_lo, d_hi) = match after.first() {
+                    Some(tc) => (tc.value_ns, tc.value_ns),
+                    None => (t_reply, iter_end),
                 };
-                let elapsed = tc.value_ns - last_good;
-                let within = elapsed < 5_000_000_000;
-                let want = if within { Message::ChronyNotRespondingGracePeriod } else { Message::ChronyNotResponding };
+                let elapsed = d_lo - last_good.1;
                 if (elapsed - 5_000_000_000).abs() <= 10_000_000 {
                     v.label("silence-within-10ms-of-grace-edge");
                     v.nontrivial = true;
                 }
-                if !ever_answered {
-                    v.label("silence-before-any-answer");
-                    v.nontrivial = true;
-                    if within {
-                        v.fail(format!("poll {}: no answer was ever received since the daemon started, yet the model says within grace (elapsed {} ns)", i, elapsed));
-                    }
-                }
-                if within {
-                    v.label("outage-within-grace");
-                } else {
-                    v.label("outage-beyond-grace");
-                }
                 if !matches!(st.answer, Answer::Silence) {
                     v.label("bad-reply");
                 }
-                if *msg != want {
-                    v.fail(format!(
-                        "poll {}: chronyd gave no usable answer {} ns after the last good one{}: expected {:?}, got {:?}",
-                        i,
-                        elapsed,
-                        if ever_answered { "" } else { " (none since start: 5 s before construction)" },
-                        want,
-                        msg
-                    ));
+                match demanded(d_lo, d_hi, last_good) {
+                    Some(within) => {
+                        let want = if within { Message::ChronyNotRespondingGracePeriod } else { Message::ChronyNotResponding };
+                        if !ever_answered {
+                            v.label("silence-before-any-answer");
+                            v.nontrivial = true;
+                            if within {
+                                v.fail(format!("poll {}: no answer was ever received since the daemon started, yet the model says within grace (elapsed {} ns)", i, elapsed));
+                            }
+                        }
+                        if within {
+                            v.label("outage-within-grace");
+                        } else {
+                            v.label("outage-beyond-grace");
+                        }
+                        if *msg != want {
+                            v.fail(format!(
+                                "poll {}: chronyd gave no usable answer {} ns after the last good one{}: expected {:?}, got {:?}",
+                                i,
+                                elapsed,
+                                if ever_answered { "" } else { " (none since start: 5 s before construction)" },
+                                want,
+                                msg
+                            ));
+                        }
+                    }
+                    None => {
+                        v.label("grace-class-depends-on-unobserved-instant");
+                        if !matches!(msg, Message::ChronyNotRespondingGracePeriod | Message::ChronyNotResponding) {
+                            v.fail(format!("poll {}: chronyd gave no usable answer: expected a not-responding message, got {:?}", i, msg));
+                        }
+                    }
                 }
             }
         }
@@ -580,7 +614,7 @@ impl Property for C13 {
     type Case = PollCase;
     const ID: &'static str = "C13";
     fn rule() -> String {
-        "cases = a daemon start at a random uptime, PHC configuration (none | refid PHC0 | other refid), PHC error-bound file (value | missing | unreadable; it may change to another state before any poll, while chronyd keeps reporting the same reference time), then 1..40 polls: gap to the previous poll (1 s, 4.999999999 s, 5 s, 5 s + 1 ns, +-10 ms around 5 s, random), chronyd answer (Tracking with refid PHC0 / byte-swapped / off by one / truncated / 0 / random; silence; malformed reply; reply of another type), query latency, generated pre-emption delays on the individual clock reads, daemon restarts. Real ClockErrorBoundPoller, get_tracking, is_within_grace_period and one real loop iteration per poll; the query seam returns the scripted reply (deserialised by chrony-candm). Oracle: grace-period model replayed on the logged clock reads (last good answer = the monotonic read that followed it, initially 5 s before construction; no answer at reading t => grace message iff t - last_good < 5 s) and the PHC rule (value attached exactly when refids are equal; unreadable file => PHC-failure message of the right class and no measurement). Non-trivial: a silence within 10 ms of the 5 s edge, a refid near-miss, a PHC read failure, or silence before any answer.".into()
+        "cases = a daemon start at a random uptime, PHC configuration (none | refid PHC0 | other refid), PHC error-bound file (value | missing | unreadable; it may change to another state before any poll, while chronyd keeps reporting the same reference time), then 1..40 polls: gap to the previous poll (1 s, 4.999999999 s, 5 s, 5 s + 1 ns, +-10 ms around 5 s, random), chronyd answer (Tracking with refid PHC0 / byte-swapped / off by one / truncated / 0 / random; silence; malformed reply; reply of another type), query latency, generated pre-emption delays on the individual clock reads, daemon restarts. Real ClockErrorBoundPoller, get_tracking, is_within_grace_period and one real loop iteration per poll; the query seam returns the scripted reply (deserialised by chrony-candm). Oracle: grace-period model replayed on the logged clock reads (last good answer = the monotonic read that followed it, initially 5 s before construction; no answer at reading t => grace message iff t - last_good < 5 s; where the implementation makes no such read the instant is only known to lie between the request and the end of the iteration, and a class is demanded only if it is the same over that span) and the PHC rule (value attached exactly when refids are equal; unreadable file => PHC-failure message of the right class and no measurement). Non-trivial: a silence within 10 ms of the 5 s edge, a refid near-miss, a PHC read failure, or silence before any answer.".into()
     }
     fn cases(tier: Tier) -> u64 {
         match tier {
@@ -820,9 +854,10 @@ fn check_c12_case(case: &OrderCase, _env: &mut Env) -> Verdict {
         v.label("client-delay-inserted");
         v.nontrivial = true;
     }
+    let mut metamorphic_applies = true;
     for (name, log) in [("without delay", &log_a), ("with delay", &log_b)] {
         let ids: Vec<i32> = log.iter().map(|r| r.clock_id).collect();
-        let first_real = ids.iter().position(|c| *c == libc::CLOCK_REALTIME);
+        let first_real = ids.iter().position(|c| crate::clock::is_realtime(*c));
         let first_mono = ids.iter().position(|c| *c == CLK_COARSE || *c == CLK_MONO);
         match (first_real, first_mono) {
             (Some(r), Some(m)) => {
@@ -833,14 +868,20 @@ fn check_c12_case(case: &OrderCase, _env: &mut Env) -> Verdict {
             _ => v.fail(format!("now() ({}) did not read both clocks (clock ids: {:?})", name, ids)),
         }
         if ids.len() != 2 {
-            v.fail(format!("now() ({}) made {} clock reads (ids {:?}); the metamorphic relation assumes one realtime and one monotonic read", name, ids.len(), ids));
+            // the delays are inserted by position (before the 1st and the 2nd read): with another
+            // number of reads the metamorphic relation below says nothing; only the order is judged
+            v.label("client-made-other-than-two-clock-reads");
+            metamorphic_applies = false;
         }
+    }
+    if !metamorphic_applies {
+        return v;
     }
     match (&out_a, &out_b) {
         (NowOut::Ok { earliest_ns: ea, latest_ns: la, .. }, NowOut::Ok { earliest_ns: eb, latest_ns: lb, .. }) => {
             // both runs read the same realtime value
-            let real_a = log_a.iter().find(|r| r.clock_id == libc::CLOCK_REALTIME).map(|r| r.value_ns).unwrap_or(0);
-            let real_b = log_b.iter().find(|r| r.clock_id == libc::CLOCK_REALTIME).map(|r| r.value_ns).unwrap_or(0);
+            let real_a = log_a.iter().find(|r| crate::clock::is_realtime(r.clock_id)).map(|r| r.value_ns).unwrap_or(0);
+            let real_b = log_b.iter().find(|r| crate::clock::is_realtime(r.clock_id)).map(|r| r.value_ns).unwrap_or(0);
             if real_a != real_b {
                 v.fail(format!("harness: realtime readings differ ({} vs {})", real_a, real_b));
             }
